@@ -317,6 +317,69 @@ func runSPlusL(c *vf.Check) {
 	ed := edwards25519.NewBlakeSHA256Ed25519()
 	pk := "C08/ed25519-S-malleability"
 	l := groups.OrderEd25519
+	// S+l over a family of 3000 signatures under one key: a canonicity test that is wrong for a small fraction of
+	// the values in [l, 2^253) shows only on many different S
+	for blk := 0; blk < 3000; blk += 250 {
+		blk := blk
+		id := fmt.Sprintf("S+l on the signatures of messages %d..%d", blk, blk+249)
+		c.Case(id, pk, func(x *vf.Ctx) {
+			e := eddsa.NewEdDSA(alpha.Stream("c08-spl-family"))
+			pub, _ := e.Public.MarshalBinary()
+			for i := blk; i < blk+250; i++ {
+				msg := []byte(fmt.Sprintf("message %d", i))
+				sig, _ := e.Sign(msg)
+				S := new(big.Int).SetBytes(rev(sig[32:]))
+				v := new(big.Int).Add(S, l)
+				if v.BitLen() > 256 {
+					continue
+				}
+				mut := append(append([]byte{}, sig[:32]...), rev(v.FillBytes(make([]byte, 32)))...)
+				c.Eval(2)
+				if eddsa.VerifyWithChecks(pub, msg, mut) == nil || schnorr.VerifyWithChecks(ed, pub, msg, mut) == nil {
+					x.Failf(pk+"/accepted", "%s: S+l accepted for the signature on %q", id, msg)
+					return
+				}
+			}
+		})
+		c.Count("transitions", 250)
+		c.Nontrivial(id)
+	}
+	// many key objects alive at the same time: each must keep signing exactly like crypto/ed25519
+	c.Case("eddsa: 48 key objects created first, then used", "C08/eddsa-vs-stdlib", func(x *vf.Ctx) {
+		var es []*eddsa.EdDSA
+		var seeds [][]byte
+		for i := 0; i < 48; i++ {
+			seed := alpha.Bytes(fmt.Sprintf("c08-alive-%d", i), 32)
+			if i%2 == 0 {
+				e := new(eddsa.EdDSA)
+				if err := e.UnmarshalBinary(append(append([]byte{}, seed...), make([]byte, 32)...)); err != nil {
+					x.Failf("C08/eddsa-vs-stdlib/load", "UnmarshalBinary: %v", err)
+					return
+				}
+				es, seeds = append(es, e), append(seeds, seed)
+			} else {
+				// a key made from a stream: its seed is what MarshalBinary exports
+				ne := eddsa.NewEdDSA(alpha.Stream(fmt.Sprintf("c08-alive-stream-%d", i)))
+				b, _ := ne.MarshalBinary()
+				es, seeds = append(es, ne), append(seeds, append([]byte{}, b[:32]...))
+			}
+		}
+		for round := 0; round < 2; round++ {
+			for i, e := range es {
+				msg := []byte(fmt.Sprintf("alive %d %d", i, round))
+				sig, err := e.Sign(msg)
+				c.Eval(1)
+				if err != nil {
+					x.Failf("C08/eddsa-vs-stdlib/sign", "Sign: %v", err)
+					return
+				}
+				if want := ed25519.Sign(ed25519.NewKeyFromSeed(seeds[i]), msg); !bytes.Equal(sig, want) {
+					x.Failf("C08/eddsa-vs-stdlib/signature-bytes", "key object #%d of 48 alive at the same time: signature differs from crypto/ed25519 (round %d)", i, round)
+					return
+				}
+			}
+		}
+	})
 	for si := 0; si < 8; si++ {
 		si := si
 		id := fmt.Sprintf("S+k*l seed %d", si)
@@ -424,6 +487,29 @@ func runEdDSADiff(c *vf.Check, from, to int) {
 					if eddsa.Verify(e.Public, msg, mut) == nil {
 						x.Failf(pk+"/sig-bitflip-accepted", "signature with byte %d mutated accepted", i)
 						return
+					}
+				}
+				// structured alterations: S replaced by l-S, R by -R (math/big and the group code respectively)
+				{
+					L := groups.OrderEd25519
+					sv := new(big.Int).SetBytes(rev(sig[32:]))
+					ns := new(big.Int).Mod(new(big.Int).Neg(sv), L)
+					negS := append(append([]byte{}, sig[:32]...), rev(ns.FillBytes(make([]byte, 32)))...)
+					edg := edwards25519.NewBlakeSHA256Ed25519()
+					R := edg.Point()
+					if R.UnmarshalBinary(sig[:32]) == nil {
+						nR, _ := edg.Point().Neg(R).MarshalBinary()
+						negR := append(append([]byte{}, nR...), sig[32:]...)
+						for nm, mut := range map[string][]byte{"S -> l-S": negS, "R -> -R": negR} {
+							c.Eval(1)
+							if bytes.Equal(mut, sig) {
+								continue
+							}
+							if eddsa.Verify(e.Public, msg, mut) == nil {
+								x.Failf(pk+"/sig-altered-accepted", "signature with %s accepted by kyber (crypto/ed25519 accepts: %v)", nm, ed25519.Verify(pub, msg, mut))
+								return
+							}
+						}
 					}
 				}
 				if ml > 0 {
